@@ -111,7 +111,7 @@ class QueryCheck:
         """Replay all cases, validate, classify.  nontrivial(trace) -> key or None."""
         run = self.run
         by_id = {c["id"]: c for c in self.cases}
-        CH = 20000
+        CH = 8000
         for k in range(0, len(self.cases), CH):
             chunk = self.cases[k:k + CH]
             traces = run.replay(chunk)
@@ -372,7 +372,7 @@ def check_C20(tier, seed):
                 b = [rng.choice([0] + list(range(1, nv2 + 1))) if rng.random() < 0.8 else 0 for _ in range(nk2)]
                 if not any(b) and rng.random() < 0.7:       # the empty binding is inserted now and then
                     b[rng.randrange(nk2)] = 1
-                ops.append({"op": "insert", "b": b, "o": k + 1})
+                ops.append({"op": "insert", "b": b, "o": rng.choice([1, 1, 2, k + 1])})     # 1 is stored as a falsy output
         allk = [list(l) for l in itertools.product(range(nv2 + 1), repeat=nk2)]
         cases.append({"family": "index", "nkeys": nk2, "nvals": nv2, "lookups": rng.sample(allk, min(len(allk), 12)),
                       "ops": ops})
@@ -591,6 +591,12 @@ def _with_pred(progs):
     return [p for p in progs if count_nodes(p["cond"], "pred") > 0]
 
 
+def _with_user_code(progs):
+    """Programs that call user code during evaluation: predicates, or methods of the user's objects."""
+    return [p for p in progs if count_nodes(p["cond"], "pred") > 0
+            or any(m in json.dumps(p["cond"]) for m in ('"n_ge"', '"n_plus"', '"is_small"'))]
+
+
 def _session_events(beh, nq):
     evs = []
     for o in beh:
@@ -635,7 +641,7 @@ def check_C04(tier, seed):
         for _ in range(1 if quick else 3):
             nv = rng.choice((1, 2))
             needs_pred = any(o["op"] == "raised" for o in b)
-            pool = _with_pred(progs[nv]) if needs_pred and rng.random() < 0.8 else progs[nv]
+            pool = _with_user_code(progs[nv]) if needs_pred and rng.random() < 0.8 else progs[nv]
             W, doms = _world_and_doms(rng, nv, quick)
             qs = [mk_query(rng.choice(pool), doms), mk_query(rng.choice(progs[nv]), doms)]
             qc.add(W, qs, _session_events(b, 2), share_vars=rng.random() < 0.7)
@@ -903,7 +909,7 @@ def check_C14(tier, seed):
                 "inference of 0-2 instances, registry clearing and no-domain queries at every level of the hierarchy, ending "
                 "in a query; exported by TLC and replayed, plus random walks; TLC computes the expected registry contents; "
                 "non-trivial = final query returns a proper, non-empty subset of everything constructed")
-    run.assumptions = ["a no-domain variable is declared immediately before it is evaluated",
+    run.assumptions = ["a no-domain variable is evaluated once (it may be declared at any earlier point of the history)",
                        "objects are identified by the order of their concrete construction (harness log)"]
     run.mc("Registry", "histories", constants=dict(MaxLen=4 if quick else 5),
            invariants=("IndicesUnique", "SubtypeMonotone"), properties=("SymbolicIsInert",), constraint="Bound", view="View")
@@ -921,7 +927,7 @@ def check_C14(tier, seed):
             continue
         last = t["evs"][-1]
         total = sum(1 for e in t["evs"] if e["op"] == "construct") + sum(len(e["got"]) for e in t["evs"] if e["op"] == "infer")
-        if last["op"] == "query" and 0 < len(last["res"]) < total:
+        if last["op"] in ("query", "evalvar") and 0 < len(last["res"]) < total:
             run.nontrivial.add(digest([[e["op"], e["cls"], e["style"], e["n"], e["T"]] for e in t["evs"]]))
     run.samples = [{"history": [[e["op"], e["cls"], e["style"], e["n"], e["T"]] for e in t["evs"]],
                     "observed": [e.get("res") if e["op"] == "query" else e.get("got") if e["op"] == "infer" else None
@@ -1095,7 +1101,7 @@ CHECKS["C12"] = check_C12
 
 
 # ---------------------------------------------------------------------- C09
-AMBIENTS = ["none", "query", "rule", "nested"]
+AMBIENTS = ["none", "query", "rule", "nested", "symq", "ruleq", "withq"]
 
 
 def _hier_world(rng, n):
@@ -1108,7 +1114,8 @@ def check_C09(tier, seed):
     run = Run("C09", tier, seed)
     quick = tier == "quick"
     run.rule = ("every query / rule is built once per ambient mode and evaluated under it: outside any block, inside "
-                "symbolic_mode(), inside rule_mode(), inside both nested; quantifiers an (drained), the, infer; programs that "
+                "symbolic_mode(), inside rule_mode(), inside both nested, inside symbolic_mode(q0) / rule_mode(q0) / `with q0:` "
+                "(blocks that also enter another query); quantifiers an (drained), the, infer; programs that "
                 "use function predicates, Predicate subclasses, HasType and instance construction in rule heads (G1, G2, G4 "
                 "programs filtered for predicates plus HasType programs over a class hierarchy); TLC judges each evaluation "
                 "against the denotation and all ambients must agree; user predicates must never observe symbolic mode; "
